@@ -495,3 +495,51 @@ def effects_in(b, blocks):
         if t["k"] == "call":
             out.append(("call", callee_method(t) or str(callee_def(t)), t["span"]))
     return out
+
+
+TRANSPARENT = ("branch", "unwrap", "expect", "unwrap_or_default", "into", "from", "clone", "deref", "to_owned")
+
+
+def origin(b, op, depth=16):
+    """Trace an operand back through single definitions — copies, casts, downcast/field reads of
+    temporaries, `?` (Try::branch), unwrap/expect, clone — to what produced it:
+    ('call', term) | ('place', place) | ('const', k) | ('rv', rvalue) | None.  No slicing: flow-sensitive
+    enough for 'this argument is the result of that call'."""
+    pl = op_place(op) if isinstance(op, dict) and ("c" in op or "m" in op) else (op if isinstance(op, dict) and "l" in op else None)
+    if pl is None:
+        k = op_const(op) if isinstance(op, dict) else None
+        return ("const", k) if k is not None else None
+    while depth > 0:
+        depth -= 1
+        fs = [e for e in pl["p"] if isinstance(e, dict) and "f" in e]
+        named_field = [e for e in fs if not e["o"].startswith(("std::ops::ControlFlow", "std::option::Option", "std::result::Result", "tuple"))]
+        if named_field:
+            return ("place", pl)
+        sd = b.single_def(pl["l"])
+        if sd is None:
+            return ("place", pl)
+        if sd[0] == "arg":
+            return ("place", pl)
+        if sd[0] == "call":
+            t = sd[2]
+            if callee_method(t) in TRANSPARENT and t["args"]:
+                nxt = op_place(t["args"][0])
+                if nxt is None:
+                    return ("const", op_const(t["args"][0]))
+                pl = nxt
+                continue
+            return ("call", t)
+        st = sd[3]
+        rv = st.get("rv") or {}
+        if "use" in rv:
+            nxt = op_place(rv["use"])
+            if nxt is None:
+                return ("const", op_const(rv["use"]))
+            pl = nxt
+        elif "ref" in rv:
+            pl = rv["ref"]
+        elif "cast" in rv and op_place(rv["cast"]) is not None:
+            pl = op_place(rv["cast"])
+        else:
+            return ("rv", rv)
+    return None
